@@ -59,16 +59,17 @@ def specDirect (evt : O2Event) (r : Run O2State O2Event) : Bool :=
 /-- The request named the state the device was in (irrelevant for a device that does not look). -/
 def Step.srcOk (strict : Bool) (s : Step σ ε) : Bool := !(strict && decide (s.ask.src ≠ s.before))
 
-/-- A transport error hit this request (and it was not a self-inflicted source mismatch). -/
+/-- A transport error hit this request, or its reply arrived without a state (`errorNoState`): the executor
+    learnt no device state from it (and it was not a self-inflicted source mismatch). -/
 def Step.lost (strict : Bool) (s : Step σ ε) : Bool := s.srcOk strict && s.out.lost
 
 /-- Excluded by finding `stale_src_request`: no request was answered "state mismatch". -/
 def noStale (strict : Bool) (r : Run σ ε) : Bool := r.steps.all (·.srcOk strict)
 
-/-- Excluded by finding `lost_reply`: every issued request got a reply. -/
+/-- Excluded by finding `lost_reply`: every issued request got a reply, and the reply carried a state. -/
 def noLoss (strict : Bool) (r : Run σ ε) : Bool := r.steps.all (fun s => !s.lost strict)
 
-/-- Weaker: the LAST request issued got a reply (or none was issued). -/
+/-- Weaker: the LAST request issued got a reply that carried a state (or none was issued). -/
 def lastReceived (strict : Bool) (r : Run σ ε) : Bool :=
   match r.steps.getLast? with
   | none => true
